@@ -383,6 +383,8 @@ def record_trace(seed, length: int, weights: dict | None = None, ops: list | Non
                 offgrid = "time reached is not on the tick grid"
                 break
         op = random_op(rnd, now, weights) if ops is None else {k: v for k, v in ops[step].items() if k != "tau"}
+        if ops is not None and op["k"] == "sim" and op["te"] > now and (op["te"] - now) % op["n"]:
+            break   # replaying calls recorded on another tree: this linspace is off the tick grid here, stop before it
         got = run.apply(flat_to_spec_op(op))
         obs = run.observe()
         segs = []
